@@ -126,7 +126,7 @@ def r2_concrete_classes(repo):
     obs = []
     f = _m(repo, "_get_subclass")
     apps = [c for c in calls_in(f.node) if call_name(c) == "append" and src(c.func.value) == "subclasses"]
-    ok = len(apps) >= 1 and all(("c.class_type != ast.ClassDeclaration.REGULAR", False) in _g(a) for a in apps)
+    ok = len(apps) >= 1 and all(("c.class_type == ast.ClassDeclaration.REGULAR", True) in _g(a) for a in apps)
     obs.append(Ob("C05-R2", "_get_subclass:only-REGULAR-classes", _w(f), ok,
                   "interfaces and abstract classes must be skipped before a class becomes an instantiation candidate"))
     rets = [n for n in iter_own_nodes(f.node) if isinstance(n, ast.Return) and n.value is not None and
@@ -461,7 +461,7 @@ def r8_type_variables_in_scope(repo):
             rec = isinstance(v, ast.Call) and call_name(v) in ("substitute_type", "substitute_type_args") and \
                 len(v.args) >= 2 and src(v.args[0]) == obj + ".bound" and src(v.args[1]) in maps
             gs = [(" ".join(src(t).split()), pol) for t, pol in flat_guards(n)]
-            only_truthiness = all(t in (obj + ".bound", obj + ".bound is not None") and pol for t, pol in gs)
+            only_truthiness = all((t == obj + ".bound" and pol) or (t == obj + ".bound is None" and not pol) for t, pol in gs)
             lp = next((a for a in ancestors(n) if isinstance(a, ast.For)), None)
             if rec and only_truthiness and lp is not None and src(lp.target) == obj:
                 ok, why = True, "`%s` for every remaining parameter" % " ".join(src(n).split())
